@@ -40,8 +40,18 @@ def agree_event(pp, tid, A, ion, zarg, iso, mono, adducts_arg, labelmods, via, k
     if adducts_arg:
         kw["charge_adducts"] = adducts_arg
 
-    om, m = call(lambda: pp.mass(seq(), monoisotopic=mono, use_isotope_on_mods=labelmods, **kw))
-    oc, cd = call(lambda: pp.comp_mass(seq(), use_isotope_on_mods=labelmods, **kw))
+    if via == "ann":
+        # one annotation object serves both calculators (the ordinary way to use a parsed annotation), in either order
+        obj = anngen.build(pp, A)
+        seq = lambda: obj
+    f_mass = lambda: pp.mass(seq(), monoisotopic=mono, use_isotope_on_mods=labelmods, **kw)
+    f_comp = lambda: pp.comp_mass(seq(), use_isotope_on_mods=labelmods, **kw)
+    if len(text) % 2:
+        om, m = call(f_mass)
+        oc, cd = call(f_comp)
+    else:
+        oc, cd = call(f_comp)
+        om, m = call(f_mass)
     if om == "ret" and oc == "ret":
         stripped = pp.mass(pp.strip_mods(text), monoisotopic=mono, ion_type=ion,
                            charge=kw.get("charge", A["charge"] or 0), isotope=iso)
@@ -68,8 +78,15 @@ def estimate_event(pp, tid, A, ion, zarg, via):
     if zarg != NOARG:
         kw["charge"] = zarg
 
+    if via == "ann":
+        obj = anngen.build(pp, A)
+        seq = lambda: obj
+
     def f():
-        return pp.mass(seq(), monoisotopic=True, **kw), pp.comp(seq(), estimate_delta=True, **kw)
+        if len(text) % 2:
+            return pp.mass(seq(), monoisotopic=True, **kw), pp.comp(seq(), estimate_delta=True, **kw)
+        c = pp.comp(seq(), estimate_delta=True, **kw)
+        return pp.mass(seq(), monoisotopic=True, **kw), c
     o, r = call(f)
     ev = {"tid": tid, "k": "estimate", "A": A, "ion": ion, "zarg": zarg, "via": via, "out": o, "adductsArg": ""}
     ev.update(massRes=fix(r[0]), comp=comp8(r[1])) if o == "ret" else ev.update(massRes=[0, 0], comp=[])
